@@ -5,13 +5,14 @@ Usage: /venv/bin/python selftest/run.py [--no-seeded]"""
 import json, os, subprocess, sys, time
 sys.path.insert(0, os.path.dirname(os.path.abspath(__file__)))
 from common import base_model, run_overlay, PROPERTIES, reformat  # noqa: E402
-from refactors import rename_locals, insert_noops  # noqa: E402
+from refactors import rename_locals, insert_noops, flip_comparisons  # noqa: E402
 
 REFACTORS = [
     ("reformat every module through ast.unparse (layout, quotes, comments gone)", reformat),
     ("rename every local variable of every function", rename_locals),
     ("insert pass statements / docstrings into every body", insert_noops),
-    ("rename + noops + reformat combined", lambda s: insert_noops(rename_locals(s))),
+    ("exchange the operands of every comparison (a < b -> b > a, x == 1 -> 1 == x)", flip_comparisons),
+    ("rename + noops + flipped comparisons + reformat combined", lambda s: flip_comparisons(insert_noops(rename_locals(s)))),
 ]
 
 
